@@ -10,6 +10,8 @@
 From Coq Require Import List ZArith PArith Bool.
 From KaiV Require Import Model.Res Model.Status Model.AMap Model.Node Model.Progress Model.Signatures.
 From KaiV Require Import Proofs.Progress.
+From KaiV Require Model.Reclaim Model.ReclaimSpec.
+From KaiV Require Import Model.ProgressTree Proofs.ProgressTree Proofs.ProgressTreeAction.
 Import ListNotations.
 Open Scope Z_scope.
 
@@ -266,3 +268,108 @@ Theorem C05_per_queue_nonvacuous :
                             [q2_blocked; q2_victim] (q2_st, []))) = [].
 Proof. exact q2_nonvacuous. Qed.
 Print Assumptions C05_per_queue_nonvacuous.
+
+(** * The reclaim clause on queue trees of any depth
+
+    C05_reclaim_progress holds for every CanReclaimResources / validator
+    oracle, hence for hierarchies of every depth.  The statements below say
+    what the proportion plugin's answers (Model/Reclaim.v, C07's model of
+    plugins/proportion/reclaimable, run on the numbers of the queue tree:
+    Model/ProgressTree.v) are on a tree whose leaves may sit at different
+    depths. *)
+
+(** The level on which a reclaimer and a victim compete.  For every queue
+    forest without a parent cycle and two queues whose root-to-leaf paths -
+    of ANY lengths, equal or not - share a prefix [ca] / [cb] (the same queues)
+    and then continue with two different queues [x] and [y]: getLeveledQueues
+    returns exactly ([x], [y]), and it is what [level_of] (the monitor's
+    divergence level) computes. *)
+Theorem C05_reclaim_level_is_divergence :
+  forall qs a b ca cb x ra y rb,
+    ReclaimSpec.acyclicb (map to_rq qs) = true ->
+    path_q qs a = ca ++ x :: ra -> path_q qs b = cb ++ y :: rb ->
+    map pq_id ca = map pq_id cb -> pq_id x <> pq_id y ->
+    level_of qs a b = Some (x, y) /\
+    Reclaim.leveled (map to_rq qs) a b = Reclaim.Ok (Some (to_rq x, to_rq y)).
+Proof. exact level_is_divergence_of_paths. Qed.
+Print Assumptions C05_reclaim_level_is_divergence.
+
+(** The reclaim clause in numbers makes the plugin say yes, whatever the depth
+    of the tree and of the queues involved.  [victims]: the leaf queues of the
+    evicted pods of a scenario (one entry per pod).  If the reclaimer's leaf
+    queue stays within its fair share with the pod added (the gate), every
+    level of its chain stays within its fair share once the victims below that
+    level are taken and the pod is added (a non-preemptible reclaimer: the
+    non-preemptible part within the deserved quota at every level), and for
+    every victim, on the level where its path and the reclaimer's diverge, the
+    reclaimer's side stays within its deserved quota and the victims' side
+    holds more than its finite deserved quota even after all other victims
+    were taken from it - then CanReclaimResources and Reclaimable both answer
+    yes (no panic, no endless parent walk). *)
+Theorem C05_reclaim_accepted_on_tree :
+  forall qs leaf preemptible victims,
+    ReclaimSpec.acyclicb (map to_rq qs) = true ->
+    leaf_gate_good qs leaf ->
+    Forall (level_good qs preemptible victims) (chain_q qs leaf) ->
+    Forall (fun k => reclaimer_level_within qs leaf k = true /\
+                     victim_level_above qs leaf k (Z.of_nat (List.length victims) - 1) = true) victims ->
+    tree_can_reclaim qs leaf preemptible = true /\ tree_reclaimable qs leaf preemptible victims = true.
+Proof.
+  intros qs leaf pr victims A G C V. split.
+  - exact (tree_can_reclaim_accepts qs leaf pr victims G C).
+  - exact (tree_reclaimable_accepts qs leaf pr victims A C V).
+Qed.
+Print Assumptions C05_reclaim_accepted_on_tree.
+
+(** Reclaim progress with the plugin's gate and validator on the queue tree
+    ([books st]: the tree with the allocation of state [st]) in place of the
+    oracles: in the state in which [p] is popped, the numeric clause for the
+    scenario [pre ++ [v]] (its evicted victims: the potential victims on the
+    node of [v]) and the remaining side conditions of C05_reclaim_progress
+    give the committed statement. *)
+Theorem C05_reclaim_progress_on_tree :
+  forall books vfilter sfilter ahead use_sigs pending st0 before p after pre v post,
+    let can := tree_gate books in
+    let valid := tree_valid books in
+    let s := fold_left (reclaim_step vfilter sfilter valid ahead use_sigs pending can) before (st0, []) in
+    let qs := books (fst s) in
+    let ev := scenario_victims (pre ++ [v]) v in
+    ReclaimSpec.acyclicb (map to_rq qs) = true ->
+    leaf_gate_good qs (pj_queue p) ->
+    Forall (level_good qs (pj_preempt p) ev) (chain_q qs (pj_queue p)) ->
+    Forall (fun k => reclaimer_level_within qs (pj_queue p) k = true /\
+                     victim_level_above qs (pj_queue p) k (Z.of_nat (List.length ev) - 1) = true) ev ->
+    skipped use_sigs pending (snd s) p = false ->
+    reclaim_victims vfilter (fst s) p = pre ++ v :: post ->
+    sfilter (fst s) p (pre ++ [v]) = true ->
+    ahead (fst s) p (filter (on_node (rj_node v)) (pre ++ [v])) = O ->
+    (exists n, In n (vs_nodes (fst s)) /\ sn_id n = rj_node v /\ 0 <= sn_idle n + sn_rel n) ->
+    exists cm, In cm (vs_log (fst (reclaim_action vfilter sfilter valid ahead use_sigs pending can st0
+                                                  (before ++ p :: after))))
+               /\ cm_job cm = pj_id p /\ cm_evicted cm <> [].
+Proof. exact reclaim_progress_on_tree. Qed.
+Print Assumptions C05_reclaim_progress_on_tree.
+
+(** Non-vacuity on a tree of mixed depth (numbers of a real session): org
+    (top-level, unlimited) with the leaf over-quota-queue (deserved 2, four
+    preemptible pods) directly below it and the pending job's leaf team1
+    (deserved 2, empty) one level deeper, below dept1 (deserved 2).  The two
+    paths have lengths 3 and 2 and diverge at (dept1, over-quota-queue); every
+    hypothesis of C05_reclaim_progress_on_tree holds and the action commits
+    evict + nomination.  Climbing both queues in lock step (right only for
+    leaves of equal depth) ends at (dept1, org): nothing can be taken from the
+    unlimited root. *)
+Theorem C05_mixed_depth_nonvacuous :
+  path_q mx_qs 1 = [mx_org; mx_dept1; mx_team1] /\ path_q mx_qs 2 = [mx_org; mx_over]
+  /\ level_of mx_qs 1 2 = Some (mx_dept1, mx_over)
+  /\ ReclaimSpec.acyclicb (map to_rq mx_qs) = true
+  /\ leaf_gate_good mx_qs 1
+  /\ Forall (level_good mx_qs true [2%positive]) (chain_q mx_qs 1)
+  /\ Forall (fun k => reclaimer_level_within mx_qs 1 k = true /\ victim_level_above mx_qs 1 k 0 = true) [2%positive]
+  /\ scenario_victims ([] ++ [mkRJ 10 2 50 true 1]) (mkRJ 10 2 50 true 1) = [2%positive]
+  /\ vs_log (fst (reclaim_action w_vfilter w_true3 (tree_valid mx_books) w_ahead true w_pending
+                                 (tree_gate mx_books) mx_st [mx_p])) = [mkCommit 1 [10%positive] 1]
+  /\ lockstep 4 mx_qs mx_team1 mx_over = (mx_dept1, mx_org)
+  /\ Reclaim.fits_strategy unit_res (to_rq mx_dept1) (to_rq mx_org) (Reclaim.alloc_vec (to_rq mx_org)) = false.
+Proof. exact mixed_depth_nonvacuous. Qed.
+Print Assumptions C05_mixed_depth_nonvacuous.
